@@ -17,6 +17,8 @@ Failure classes reported with c.violation (replay = JSON with the K-line):
                     release-rate tolerances.  When the faithful model reproduces the sub-step and the release IS within the
                     curves at the start and PREDICTED end volume (theorem C13_release_between_curves) this is the known
                     finding key=release-evaluated-at-predicted-end-volume; anything else is a plain VIOLATION
+  release-below-min-curve  a step without inflow and rain reports less outflow than the minimum-release curve at (a lower
+                    bound of) the lowest volume the scheme can have evaluated, beyond the code's tolerances
   crash-unpredicted the Go process panicked where the model predicts a normal result (or vice versa)
 """
 import sys, os, re, json, math, subprocess
@@ -79,6 +81,14 @@ def gen_tables(rng, n, style):
     scale = cap / 86400.0 * rng.choice([0.01, 0.1, 1.0, 5.0])
     if style == 'spillway':
         minrel = [0.0] * (n - 1) + [scale * rng.uniform(2, 50)]
+    elif style == 'crest':
+        # spillway crest INSIDE the table: minimum release 0 up to an interior row, positive and increasing above it
+        j = rng.randrange(0, max(1, n - 2))               # last row with zero minimum release
+        minrel, cur = [], 0.0
+        for k in range(n):
+            if k > j:
+                cur += scale * rng.uniform(0.05, 3.0)
+            minrel.append(cur)
     elif style == 'flat':
         m = scale * rng.choice([0.0, rng.uniform(0, 0.05)])
         minrel = [m] * n
@@ -129,9 +139,39 @@ def gen_series(rng, regime, T, cap, dt, maxrel_top):
     return rain, pet, inflow, demand
 
 
+def add_idle_spells(rng, rain, pet, inflow, demand):
+    """with a fixed share (half of the cases): spells of 1-5 steps where ALL FOUR forcings are exactly 0.0
+    at the start, in the middle and at the end of the series, and a few steps where exactly three of
+    the four are 0 (the fourth keeps its value, or gets one if it was 0) -> number of fully idle steps"""
+    T = len(rain)
+    if T == 0 or rng.random() < 0.5:
+        return 0
+    series = (rain, pet, inflow, demand)
+    idle = set()
+    for where in ('start', 'middle', 'end'):
+        if rng.random() < 0.75:
+            k = min(T, rng.randint(1, 5))
+            a = 0 if where == 'start' else (T - k if where == 'end' else rng.randint(0, T - k))
+            idle.update(range(a, a + k))
+    for t in idle:
+        for x in series:
+            x[t] = 0.0
+    for _ in range(min(T, rng.randint(1, 3))):
+        t = rng.randrange(T)
+        if t in idle:
+            continue
+        keep = rng.randrange(4)
+        for j, x in enumerate(series):
+            if j != keep:
+                x[t] = 0.0
+        if series[keep][t] == 0.0:
+            series[keep][t] = rng.choice([1.0, 5.0, 0.01]) * (1.0 if keep < 2 else max(inflow + demand + [1e-3]))
+    return len(idle)
+
+
 def make_case(rng, quick):
     n = rng.choice([2, 2, 3, 3, 4, 5, 6])
-    style = rng.choice(['spillway', 'spillway', 'general', 'general', 'flat', 'wet-bottom'])
+    style = rng.choice(['spillway', 'spillway', 'general', 'general', 'flat', 'wet-bottom', 'crest', 'crest'])
     levels, volumes, areas, minrel, maxrel = gen_tables(rng, n, style)
     dt = rng.choice([86400.0, 86400.0, 86400.0, 3600.0, 43200.0, 600.0, 60.0, 6.0, 1.0, float(rng.randint(1, 86400)),
                      rng.uniform(1, 86400)])
@@ -141,11 +181,13 @@ def make_case(rng, quick):
     # flows are scaled so that q fills the reservoir in one day, or (half of the cases) in one time step
     flowcap = cap * (86400.0 / dt if rng.random() < 0.5 else 1.0)
     rain, pet, inflow, demand = gen_series(rng, regime, T, flowcap, dt, maxrel[-1])
-    v0 = rng.choice([0.0, volumes[0], cap, cap * 1.3, cap * rng.random(), cap * rng.random(), cap * 0.999, cap * 0.01])
+    idle = add_idle_spells(rng, rain, pet, inflow, demand)
+    v0 = rng.choice([0.0, volumes[0], cap, cap * 1.3, cap * rng.random(), cap * rng.random(), cap * 0.999, cap * 0.01,
+                     cap * rng.uniform(0.5, 1.0)])
     tmc = [rng.choice([0.0, cap * 0.1])] * T
     return {'kind': 'valid', 'style': style, 'regime': regime, 'dt': dt, 'n': n, 'levels': levels, 'volumes': volumes,
             'areas': areas, 'minrel': minrel, 'maxrel': maxrel, 'v0': v0, 'rain': rain, 'pet': pet, 'inflow': inflow,
-            'demand': demand, 'tmc': tmc}
+            'demand': demand, 'tmc': tmc, 'idle': idle}
 
 
 def boundary_cases(rng):
@@ -324,6 +366,7 @@ def oracle(c, ri, trace):
     vmax = c['volumes'][-1]
     upper = max(maxmax, 2 * maxspill)
     dem_lo, dem_hi = max(c['minrel']), min(c['maxrel'])
+    min_nondecr = c['minrel'][0] >= 0.0 and all(a <= b for a, b in zip(c['minrel'], c['minrel'][1:]))
     for t in range(T):
         v = vol[t]
         lhs = v - prev
@@ -350,6 +393,23 @@ def oracle(c, ri, trace):
                 break
             if trace is not None and not spilled_model and not close(outflow[t], d, abs(d), atol=1e-12):
                 bad.append(('release-demand', {'t': t, 'outflow': outflow[t], 'demand': d, 'why': 'no spill in the model trace'}))
+                break
+        # minimum release on a step without inflow and rain (demand, PET >= 0; minRelease >= 0 and non-decreasing in
+        # volume).  Then the volume only falls, and every volume at which the scheme evaluates the curves (start and
+        # PREDICTED end volume of an accepted sub-step) is >= L = 2*V_t - V_{t-1}: the predicted drop (est+e)*h is at
+        # most twice the actual drop (avgOut+e)*h because avgOut >= est/2.  By C13_release_between_curves (lo =
+        # minRelease(L)) the reported outflow is >= minRelease(L), up to the code's own release-rate tolerances.
+        if (c['inflow'][t] == 0.0 and c['rain'][t] == 0.0 and c['pet'][t] >= 0.0 and d >= 0.0 and min_nondecr and
+                min(c['areas']) >= 0.0 and v <= prev):
+            need = capped_interp(c, 2 * v - prev, c['minrel'])
+            need = 0.0 if need is None else need
+            rtol = ALLOWED_ABS_ERROR_RELEASE_RATE + ESSENTIALLY_ZERO_RELEASE_RATE + ALLOWED_REL_ERROR_RELEASE_RATE * abs(need)
+            if outflow[t] < need - rtol - tol:
+                bad.append(('release-below-min-curve', {'t': t, 'outflow': outflow[t], 'volume_before': prev, 'volume_after': v,
+                                                        'lowest_evaluation_volume_bound': 2 * v - prev,
+                                                        'minRelease_there': need, 'minRelease_at_volume_after': capped_interp(c, v, c['minrel']),
+                                                        'inflow': 0.0, 'rainfall_mm': 0.0, 'pet_mm': c['pet'][t], 'demand': d,
+                                                        'tolerance': rtol + tol}))
                 break
         if outflow[t] > maxmax + tol and maxmax >= 0:
             # it must have spilled; spilling stops at full supply and afterwards only releases/evaporation draw down
@@ -424,6 +484,7 @@ def evaluate(c_check, cases, lines, want_samples=True):
     stats = {'agreed_panics': 0, 'agreed_panics_on_valid_inputs': 0, 'config_error_returns': 0, 'impl_stdout_notes': notes,
              'timesteps': 0, 'substeps': 0, 'steps_with_halving': 0, 'steps_with_spill': 0, 'steps_ending_empty': 0,
              'cases_with_rain_and_area': 0, 'model_fuel_exhausted': 0,
+             'idle_steps_all_four_forcings_zero': 0, 'idle_steps_with_positive_min_release': 0,
              'strict_release_failures': 0, 'strict_release_failures_within_predicted_envelope': 0, 'strict_release_first': None}
     first_valid_panic = None
     for i, (c, li, lm, lt) in enumerate(zip(cases, impl, model, traces)):
@@ -465,6 +526,13 @@ def evaluate(c_check, cases, lines, want_samples=True):
             continue
         if any(r > 0 for r in c['rain']) and max(c['areas']) > 0:
             stats['cases_with_rain_and_area'] += 1
+        for t in range(len(c['rain'])):
+            if c['rain'][t] == 0.0 and c['pet'][t] == 0.0 and c['inflow'][t] == 0.0 and c['demand'][t] == 0.0:
+                stats['idle_steps_all_four_forcings_zero'] += 1
+                vb = ri[1][0][t - 1] if t else c['v0']
+                mr = capped_interp(c, vb, c['minrel'])
+                if mr is not None and mr > 1e-3 and vb <= c['volumes'][-1]:
+                    stats['idle_steps_with_positive_min_release'] += 1
         # the oracle always runs on the implementation's outputs; the model's sub-step trace is
         # only consulted (for "did this step spill") when model and code agree on this case
         for (cls, detail) in oracle(c, ri, steps if (code == 'OK' and not diff) else None):
@@ -568,7 +636,7 @@ def main():
             c.violation('coqchk.json', {'kind': 'coqchk-failed', 'output_tail': e.output[-2000:]}, no_input=True)
     c.cov['rule'] = ('monotone level-volume-area tables and release curves with 2..6 points (styles: spillway step at full supply, '
                      'general increasing curves, flat curves, wet bottom), deltaT in {1,6,60,600,3600,43200,86400,random}, '
-                     'series regimes fill-to-spill / drawdown-to-empty / steady / rain-only / pulse / wet-dry cycle / mixed, '
+                     'series regimes fill-to-spill / drawdown-to-empty / steady / rain-only / pulse / wet-dry cycle / mixed, half of the series with idle spells (all four forcings exactly 0 for 1-5 steps at start / middle / end) and steps with exactly three forcings 0, tables also with the spillway crest on an interior row (minRelease > 0 inside the table), '
                      'initial volumes empty..over-full, plus hand-written boundary cases and a malformed stream (nLVA 0/1, '
                      'non-monotone / duplicate / negative volumes, negative inflow or demand, huge PET, crossed curves) compared '
                      'model-vs-code only; each case run through sim.Catalog["Storage"] and the extracted Coq model (bit-exact), '
